@@ -206,6 +206,14 @@ def build_events():
         if full:
             ev[f"setpoll:{e.label}"] = (lambda fr=fr: _inspect(UBXReader.parse(fr, msgmode=3)))
         CLSID_OF[e.label] = e.clsid.hex()
+        if L.special_of(e.mode, e.clsid) != "cfgval":
+            # the same definition with other field CONTENT: every bit-0 flag set / every bit set (content that
+            # switches on an optional path of the library, e.g. a 'valid' flag, shows only with such values)
+            for tag, byte in (("01", 1), ("ff", 0xFF)):
+                plf = C.build_payload(e, lambda x: 2, 2, lambda i, byte=byte: byte)
+                if plf is not None and plf != pl:
+                    frf = ref.frame(e.clsid[0], e.clsid[1], plf)
+                    ev[f"parse:{e.label}:fill={tag}"] = (lambda frf=frf, mode=e.mode: _inspect(UBXReader.parse(frf, msgmode=mode)))
         if any(isinstance(v, tuple) and v[0] == "None" for v in e.pdict.values()) and L.special_of(e.mode, e.clsid) is None:
             # a payload whose variable-by-size part is not a whole number of members
             rag = ref.frame(e.clsid[0], e.clsid[1], pl + b"\x07")
@@ -402,9 +410,7 @@ def history_block(first_names, depth, acc, sub=None):
     tails = [()] if depth == 1 else list(itertools.product(sub or names, repeat=depth - 1))
     for first in first_names:
         for tail in tails:
-            hist = (first,) + tail
-            if depth > 1:
-                hist = hist + tuple(probes)
+            hist = (first,) + tail + tuple(probes)  # every history ends with the probe set
             judge_history(hist, acc, digest=True)
 
 
@@ -419,7 +425,7 @@ def same_clsid_pairs():
     groups = {}
     for n in sorted(ev):
         parts = n.split(":")
-        if parts[0] in ("parse", "build", "setpoll") and len(parts) >= 3:
+        if parts[0] in ("parse", "build", "setpoll") and len(parts) >= 3 and ":fill=" not in n:
             lab = parts[1] + ":" + parts[2]
             cid = CLSID_OF.get(lab)
             if cid:
@@ -713,8 +719,8 @@ def run_tier(tier, t0):
         PROP, tier, acc, t0, replay_case,
         rule=(
             f"(a) one parsed message per routed definition x 2 views + null-payload + nominal: every name in dir(msg)+__dict__+fresh names x {{set, delete}}; "
-            f"(b) {len(names)} events (parse and keyword build of every routed definition, SETPOLL and raw-bitfield parses of every variant route and special case, config helpers, all helpers, 20 failing calls, stream reads under 3 policies x 3 modes): "
-            f"every event from the import state with a deep digest of all pyubx2 module data (states = distinct digests, must be 1), all histories of length 2 "
+            f"(b) {len(names)} events (parse and keyword build of every routed definition, parse of every definition with all-01 and all-ff field content, SETPOLL and raw-bitfield parses of every variant route and special case, config helpers, all helpers, 20 failing calls, stream reads under 3 policies x 3 modes): "
+            f"every event from the import state followed by the probe set, with a deep digest of all pyubx2 module data (states = distinct digests, must be 1), all histories of length 2 "
             + (f"over a {len(sub)}-event sub-alphabet as second event" if q else f"and length 3 over a {len(sub)}-event sub-alphabet")
             + f" with probe-set comparison, all {len(sp)} adjacent ordered pairs of events that share a class/ID (and every event applied twice in a row)" + ("" if q else " and all ordered pairs of parse events") + ", fd 1/2 captured around every event; (c) all {len(pairs)} unordered pairs of {len(ops)} colliding operations as real threads under the cooperative scheduler, "
             + ("every schedule with <= 1 preemption" if q else "every schedule with <= 1 preemption, <= 2 preemptions (capped at 8,000 executions per shard = 64,000 per pair, caps listed), 20 triples at bound 1")
